@@ -18,6 +18,9 @@ Verdict(ev) ==
     ELSE IF ev.ok /\ ~Valid(ev.cc, n) THEN "accepts-invalid"
     ELSE IF ~ev.ok /\ Valid(ev.cc, n) THEN "rejects-valid"
     ELSE IF ev.party_ok # ev.ok THEN "party-path-differs"
+    \* documents validate the identities of their parties, and a regime's alternative country codes follow its rule
+    ELSE IF ev.doc_ok # ev.ok THEN "document-path-differs"
+    ELSE IF ev.alt_ok # ev.ok THEN "alternative-country-code-differs"
     ELSE "ok"
 Step == /\ i <= Len(Trace)
         /\ LET ev == Trace[i]
